@@ -412,6 +412,12 @@ ASMJIT_FAVOR_SIZE Error init_func_detail(FuncDetail& func, const FuncSignature& 
               if (signature.has_var_args() && cc.has_flag(CallConvFlags::kPassVecByStackIfVA)) {
                 reg_id = Reg::kIdBad;
               }
+
+              // The register save area of a variadic function only holds XMM registers, so an unnamed 256-bit or
+              // 512-bit vector argument is passed in memory (what va_arg() expects) even if YMM|ZMM registers are free.
+              if (signature.has_var_args() && arg_index >= signature.va_index() && TypeUtils::size_of(type_id) > 16u) {
+                reg_id = Reg::kIdBad;
+              }
             }
 
             if (reg_id != Reg::kIdBad) {
